@@ -94,6 +94,9 @@ def oracle(line: str, obs: Obs):
                             fails.append({"what": f"inbound CER not answered by the specified CEA (expected result {want}, node "
                                                   f"identity/addresses/vendor/product/application ids)",
                                           "event": ev, "real": outs[0] if outs else "(no CEA)", "expected_cea": want_cea})
+                        if len(outs) > 1:
+                            fails.append({"what": "inbound CER answered by more than the one specified CEA", "event": ev,
+                                          "real": " / ".join(outs)[:400]})
                         after = next((kv(l) for l in lines if l.startswith("CONN " + c + " ")), {})
                         ready = after.get("state") in ("READY", "WAITDWA")
                         if ready != (want == 2001):
